@@ -202,8 +202,14 @@ def handleObs (st : St) (toks : List String) (out : IO.FS.Stream) : IO St := do
         if res != .panic then
           for a in auditsFor h.profile do
             let fails : List String :=
-              if a == "C02" then Audit.c02Views h.tick h.nLevels impl ++ Audit.c02Uncrossed neverDisabled impl
-              else if a == "C03" then Audit.c03Ledger prev impl op
+              if a == "C02" then Audit.c02Views h.tick h.nLevels impl ++
+                -- a resting zero-volume order may sit inside the opposite side (nothing can trade with it): the
+                -- "never crossed" clause presupposes positive volumes
+                (if h.profile == "unusual" then [] else Audit.c02Uncrossed neverDisabled impl)
+              else if a == "C03" then
+                -- `unusual` histories carry zero-volume orders, whose fills have volume 0 (C01's fill rule); C03's
+                -- "positive volume" presupposes positive order volumes
+                (Audit.c03Ledger prev impl op).filter fun c => !(h.profile == "unusual" && c == "trade_positive")
               else if a == "C04" then Audit.c04Lifecycle prev impl ++ Audit.c04Noop prev impl op
               else if a == "C06" then Audit.c06Modify h.tick prev impl op
               else if a == "C12" then Audit.c12Grid h.tick h.nLevels prev impl op res
